@@ -3415,8 +3415,20 @@ static Type check_statement_impl(TypeChecker *tc, ASTNode *stmt) {
 
         case AST_BLOCK: {
             Type last_type = TYPE_VOID;
+            int scope_mark = tc->env->symbol_count;
             for (int i = 0; i < stmt->as.block.count; i++) {
                 last_type = check_statement(tc, stmt->as.block.statements[i]);
+            }
+            /* The symbols stay in the table for the later stages, but what this block declared
+             * is visible only up to its closing brace: after it, a shadowed name means the outer
+             * variable again (its type and its mutability). */
+            if (stmt->as.block.end_line > 0) {
+                for (int i = scope_mark; i < tc->env->symbol_count; i++) {
+                    if (tc->env->symbols[i].scope_end_line == 0) {
+                        tc->env->symbols[i].scope_end_line = stmt->as.block.end_line;
+                        tc->env->symbols[i].scope_end_column = stmt->as.block.end_column;
+                    }
+                }
             }
             return last_type;
         }
